@@ -48,6 +48,9 @@ type Faults struct {
 	WriteErrAt   int    `json:"write_err_at"` // -1 none; the Write with this index and all later ones fail
 	CloseMode    string `json:"close_mode"`   // eof | err | stuck: what a blocked/later Read does once Close was called
 	DropAfterEOF bool   `json:"drop_after_loss"`
+	// QuietAfterWriteErr: once a write has failed nothing more is delivered to the client either
+	// (the connection is dead in both directions, but the read side only goes quiet).
+	QuietAfterWriteErr bool `json:"quiet_after_write_err,omitempty"`
 }
 
 // NoFaults is the fault-free plan.
@@ -112,6 +115,7 @@ type T struct {
 	closed    bool
 	killed    bool
 	waiter    chan struct{}
+	quietAt   int
 
 	Opened     int
 	CloseCalls int
@@ -128,7 +132,7 @@ type T struct {
 
 // New returns a transport talking to peer.
 func New(k *kernel.Kernel, peer Peer, plan NetPlan, f Faults) *T {
-	return &T{K: k, Peer: peer, Plan: plan, F: f, rng: kernel.Stream(plan.Seed, "net"), FaultFired: map[string]int{}}
+	return &T{K: k, Peer: peer, Plan: plan, F: f, rng: kernel.Stream(plan.Seed, "net"), FaultFired: map[string]int{}, quietAt: -1}
 }
 
 func (t *T) lat() time.Duration {
@@ -330,6 +334,9 @@ func (t *T) Read(n int) ([]byte, error) {
 			return nil, err
 		}
 		limit := len(t.out)
+		if t.quietAt >= 0 && limit > t.quietAt {
+			limit = t.quietAt
+		}
 		if t.F.StallAt >= 0 && !t.resumed && limit > t.F.StallAt {
 			limit = t.F.StallAt
 			if t.delivered >= limit {
@@ -509,6 +516,9 @@ func (t *T) Write(b []byte) error {
 		rec.Failed = true
 		t.Writes = append(t.Writes, rec)
 		t.FaultFired["writeerr"]++
+		if t.F.QuietAfterWriteErr && t.quietAt < 0 {
+			t.quietAt = t.delivered
+		}
 
 		return ErrSimWrite
 	}
